@@ -60,7 +60,7 @@ def find(s, p, atol, sd=0, **kw):
     from mofun import find_pattern_in_structure
     random.seed(sd)
     np.random.seed(sd)
-    with quiet(), contextlib.redirect_stdout(io.StringIO()), time_limit(600):
+    with quiet(), contextlib.redirect_stdout(io.StringIO()), time_limit(300):
         return find_pattern_in_structure(s, p, atol=atol, **kw)
 
 
@@ -172,7 +172,7 @@ def c08_events(case, tier, sd):
     try:
         random.seed(sd)
         np.random.seed(sd)
-        with quiet(), contextlib.redirect_stdout(io.StringIO()), time_limit(600):
+        with quiet(), contextlib.redirect_stdout(io.StringIO()), time_limit(300):
             r = replace_pattern_in_structure(s, p, p.copy(), atol=atol)
         kb, ka = frac_key(s), frac_key(r)
         rows = lambda t, keys: [k + [int(round(q * 1e4)), int(g)] for k, q, g in zip(keys, t.charges, t.groups)]
@@ -199,7 +199,7 @@ def c08_events(case, tier, sd):
         ev["nA"] = sum(1 for e in s.elements if e == A)
         ev["nB_before"] = sum(1 for e in s.elements if e == B)
         random.seed(sd)
-        with quiet(), contextlib.redirect_stdout(io.StringIO()), time_limit(900):
+        with quiet(), contextlib.redirect_stdout(io.StringIO()), time_limit(450):
             s1, n1 = replace_pattern_in_structure(s, pa, pb, atol=atol, return_num_matches=True)
             again = find(s1, pa, atol)
             s2, n2 = replace_pattern_in_structure(s1, pb, pa, atol=atol, return_num_matches=True)
